@@ -1061,7 +1061,7 @@ def mon_pool(ops, impl):
     for o, a in zip(ops, impl):
         f = o.split(" ")
         if len(f) >= 2 and f[0].startswith("pool.cl."):
-            by.setdefault(f[1], []).append((f, a))
+            by.setdefault(f[1], []).append((f, a.replace("mon ## ", "mon ", 1)))
     for cid, steps in by.items():
         lines = [" ".join(f) for f, _ in steps]
         v = []
@@ -1164,7 +1164,7 @@ def run_pool(ctx, out):
     out.setdefault("families", {})
     out["clipool"] = dict(clients=clients, ops=len(ops), round_trips=sum(1 for o in ops if o.startswith("pool.cl.rt")),
                           monitor_findings=dict(kinds),
-                          outcomes=dict(collections.Counter(" ".join(a.split(" ")[1:4]) for o, a in zip(ops, impl) if o.startswith("pool.cl.res"))))
+                          outcomes=dict(collections.Counter(" ".join(a.replace("mon ## ", "mon ", 1).split(" ")[1:4]) for o, a in zip(ops, impl) if o.startswith("pool.cl.res"))))
     out["rule"] = out.get("rule", "") + (" clipool: Client.RoundTrip (pickConn, the retry loop, onConnectionDropped) through fasthttp's transport interface against "
                                          "scripted TLS servers in memory: a request's HEADERS reach the servers at most once more than it was disclaimed (GOAWAY below "
                                          "its stream, REFUSED_STREAM); retry is reported only for a disclaimed or never-written request; every call returns by "
